@@ -304,7 +304,19 @@ def deref(v):
 
 
 def proj_get(v, path):
-    for k, a in path:
+    for step in path:
+        k, a = step[0], step[1]
+        if k == 'sub':
+            v = deref(v) if isinstance(v, Ref) else v
+            mode, b = step[2]
+            if isinstance(v, Str):
+                v = Str(v.buf, add(v.start, a), (sub(v.end, b) if mode == 'end' else add(v.start, b)), v.is_str)
+            elif getattr(v, 'items', None) is not None:
+                items = v.items
+                v = ArrSlice(items[a:(len(items) - b if mode == 'end' else b)])
+            else:
+                raise Unsupported('subslice of %r' % (v,))
+            continue
         if k == 'f':
             if isinstance(v, Tuple):
                 v = v.items[a]
@@ -321,6 +333,15 @@ def proj_get(v, path):
                 raise Unsupported('downcast %r as %s' % (v, a))
         elif k == 'i':
             v = index_val(v, a)
+        elif k == 'ie':
+            v = deref(v) if isinstance(v, Ref) else v
+            items = getattr(v, 'items', None)
+            if isinstance(v, Str):
+                v = v.buf.at(sub(v.end, a))
+            elif items is None:
+                raise Unsupported('index from the end of %r' % (v,))
+            else:
+                v = items[len(items) - a]
         elif k == 'd':
             v = deref(v)
     return v
@@ -840,6 +861,18 @@ class Exec:
         if m:
             c, path = self.place_ref(m.group(1), frame)
             return c, path + (('i', int(m.group(2))),)
+        m = re.match(r'^(.*)\[-(\d+) of (\d+)\]$', p)
+        if m:
+            # ConstantIndex from the end (slice patterns `[.., x]`)
+            c, path = self.place_ref(m.group(1), frame)
+            return c, path + (('ie', int(m.group(2))),)
+        m = re.match(r'^(.*)\[(\d+):(?:-(\d+))?\]$', p) or re.match(r'^(.*)\[(\d+)\.\.(\d+)\]$', p)
+        if m:
+            # Subslice (slice patterns `[a, rest @ ..]`, `[a, mid @ .., z]`)
+            c, path = self.place_ref(m.group(1), frame)
+            if '..' in p[len(m.group(1)):]:
+                return c, path + (('sub', int(m.group(2)), ('abs', int(m.group(3)))),)
+            return c, path + (('sub', int(m.group(2)), ('end', int(m.group(3) or 0))),)
         raise Unsupported('place ' + p)
 
     def load(self, p, frame):
